@@ -25,7 +25,7 @@ RULE = (
 )
 
 CPU_BUDGET_S = 20.0  # per compile() of a bounded text; normal cost is about a millisecond
-FUZZ_RUNS = int(__import__("os").environ.get("VERIF_FUZZ_RUNS", "40000"))
+FUZZ_RUNS = int(__import__("os").environ.get("VERIF_FUZZ_RUNS", "15000"))
 
 TOKENS = ["1", "0x1F", "1u", "1.5", "1e3", ".5", "'a'", '"b"', "'''c'''", "r'\\d'", "b'x'", "true", "false", "null", "x", "y.z", "_a1", "in", "has", "size",
           "(", ")", "[", "]", "{", "}", ".", ",", ":", "?", "+", "-", "*", "/", "%", "!", "<", "<=", ">", ">=", "==", "!=", "&&", "||", "=", "&", "|", "//c\n",
